@@ -199,6 +199,7 @@ def rows : List Row := [
   ⟨0x557cbbd6cefd7af9, "range|pkg/basm/basm.go|(*BasmInstance).String|bi.macros|0", ["calls", "concat"], .debugOnly⟩,
   ⟨0x75c9c97ad94c955e, "range|pkg/basm/basm.go|(*BasmInstance).String|bi.sections|0", ["calls", "concat"], .debugOnly⟩,
   ⟨0x2c64ec414b89a95f, "range|pkg/basm/basm.go|(*BasmInstance).String|bi.symbols|0", ["calls", "concat"], .debugOnly⟩,
+  ⟨0x657d60dd666f4ab0, "range|pkg/basm/basm.go|lineHeader|line.LoopMeta()|0", ["append", "sorted"], .sortedAfter⟩,
   ⟨0xd77dd96267094d49, "range|pkg/basm/callresolver.go|callResolver|bi.sections|0", ["calls", "early", "keyed", "output"], .thm .framedWalk⟩,
   ⟨0xc8226c67df4c85f1, "range|pkg/basm/clusterchecker.go|clusterChecker|bi.clusteredNames|0", ["early"], .thm .membership⟩,
   ⟨0xcb0450a6be7a620b, "range|pkg/basm/clusterchecker.go|clusterChecker|bi.clusteredNames|1", ["keyed"], .thm .setInsert⟩,
@@ -244,7 +245,7 @@ def rows : List Row := [
   ⟨0x76d88146c5c1d4c3, "range|pkg/basm/templateresolver.go|templateResolver|cp.LoopMeta()|0", ["keyed"], .thm .keyedCopy⟩,
   ⟨0x2c06ff01b2268ebd, "range|pkg/basm/templateresolver.go|templateResolver|fi.LoopMeta()|0", ["keyed"], .thm .keyedCopy⟩,
   ⟨0x2b14c2251cf7fa18, "range|pkg/basm/templateresolver.go|templateResolver|fragmentRem|0", ["keyed"], .thm .keyedCopy⟩,
-  ⟨0x14916fb86e20a213, "range|pkg/basm/templateresolver.go|templateResolver|sectionRem|0", ["keyed"], .thm .keyedCopy⟩,
+  ⟨0xf842abc8b16903f1, "range|pkg/basm/templateresolver.go|templateResolver|sectionRem|0", ["calls", "keyed"], .insens "deletes bi.sections[name] for the ranged name unless a processor still runs that section (reads bi.cps only): every iteration touches only the cell of its own key"⟩,
   ⟨0x56242f343e6d8cd4, "range|pkg/basm/templates.go|(*BasmInstance).templateAutoMark|bi.fragments|0", ["calls", "keyed"], .thm .framedWalk⟩,
   ⟨0x04d1a6251cbda531, "range|pkg/basm/templates.go|(*BasmInstance).templateAutoMark|bi.sections|0", ["calls", "keyed"], .thm .framedWalk⟩,
   ⟨0x1181f1ad8cfca388, "range|pkg/basm/templates.go|applyTemplate|params|0", ["accum"], .unproved "writes params[key] while ranging over params (entries added during the walk may or may not be visited); result is the same only because a default_ key never names another default_ key"⟩,
@@ -271,7 +272,6 @@ def rows : List Row := [
   ⟨0x11c8127a26d4072d, "range|pkg/bondgo/converter.go|(*BondgoCheck).Create_Bondmachine|bg.IOr|2", ["accum", "calls"], .unproved "bonds are added to the machine in map order of the processor table (Add_bond appends to Links): bond numbering of multi-processor programs follows it"⟩,
   ⟨0x71dcf720ddea952b, "range|pkg/bondgo/converter.go|(*BondgoCheck).Create_Bondmachine|bg.IOr|3", ["accum", "append", "sorted"], .sortedAfter⟩,
   ⟨0x9cdf0261becbadd4, "range|pkg/bondgo/converter.go|(*BondgoCheck).Create_Bondmachine|creqs|0", ["accum", "calls"], .insens "body ignores the entry: one identical call per entry"⟩,
-  ⟨0x9cee87cfae907883, "range|pkg/bondgo/converter.go|(*BondgoCheck).Create_Bondmachine|creqs|1", ["calls"], .unproved "shared-object links are appended per channel in map order"⟩,
   ⟨0x5a1febdac180ec18, "range|pkg/bondgo/converter.go|(*BondgoCheck).Create_Bondmachine|unconnected_inputs|0", ["append", "keyed", "sorted"], .sortedAfter⟩,
   ⟨0x0391eafd608e8397, "range|pkg/bondgo/converter.go|(*BondgoCheck).Create_Etherbond_Cluster|otherres.Map.Assoc|0", ["accum", "early", "xdep"], .insens "counts the outputs connected to this id up to two (connected, then multi): whether there are at least one / at least two does not depend on the order"⟩,
   ⟨0x10de6c3ab149bfbe, "range|pkg/bondgo/converter.go|(*BondgoCheck).Create_Etherbond_Cluster|otherres.Map.Assoc|1", ["accum"], .insens "computes existence flags (connected / multi) over all entries"⟩,
